@@ -1,6 +1,7 @@
 import Nic.Props.C06
 import Nic.Model.Naming
 import Nic.Lemmas.Naming
+import Nic.Lemmas.TmplSound
 /-!
   C07 — generated configuration always loads: lexically well formed, no identifier defined twice.
 
@@ -388,5 +389,34 @@ example : NoUnderscore "a-b.c" := by unfold NoUnderscore; decide
 /-- what the arity rule is about (seed C07-2's shape): a directive without its argument is still lexically a
 directive, with one word — the arity table, not the tokenizer, rejects it. -/
 example : events "proxy_hide_header ;".toList = [.dir 1] := by decide
+
+/-! ## Part 3 — the templates themselves
+
+`Nic.Tmpl.wellFormedForAll t` is the analysis of `Nic/Model/Tmpl.lean` run on a template term regenerated from /repo
+(`Nic/Gen/Templates.lean`); on every run of the check the compiled driver evaluates it for the eight templates. The
+theorem says what a positive answer means. -/
+
+/-- If the analysis accepts a template, then **every** file the template can produce — any combination of `if`
+branches, any number of `range` iterations, any admissible value at every interpolation site (`HoleVal`: a token-safe
+word or nothing between tokens, a word-safe / quote-safe value inside a word / a quoted string; `FragVal`: a closed
+piece of configuration where a helper writes whole directives) — is lexically well formed. -/
+theorem template_analysis_sound (t : Nic.Tmpl.TL) (h : Nic.Tmpl.wellFormedForAll t = true) (cs : List Char)
+    (hr : Nic.Tmpl.RenderTL t init cs) : wellFormed cs = true :=
+  Nic.Tmpl.analysis_sound t h cs hr
+
+/-- the analysis reads literal text exactly as the tokenizer does (argument counts clipped to zero / non-zero) -/
+theorem template_text_exact (cs : List Char) (s t : St) (hs : s.err = false) (h : Nic.Tmpl.runText (Nic.Tmpl.clip s) cs = some t) :
+    (run s cs).1.err = false ∧ Nic.Tmpl.clip (run s cs).1 = t ∧ Ev.err ∉ (run s cs).2 :=
+  Nic.Tmpl.runText_sound cs s t hs h
+
+/-- non-vacuity: a template with a value site, and a rendering of it that satisfies `RenderTL` (kernel evaluation of
+the analysis on larger templates is too slow — ~35 ms per character — which is why the driver evaluates it). -/
+def demoTmpl : Nic.Tmpl.TL := .cons (.text "a ") (.cons (.hole false "v") (.cons (.text ";") .nil))
+
+example : Nic.Tmpl.wellFormedForAll demoTmpl = true := by decide
+
+example : Nic.Tmpl.RenderTL demoTmpl init "a b;".toList :=
+  ⟨"a ".toList, "b;".toList, rfl, rfl, "b".toList, ";".toList, rfl,
+    Or.inr ⟨'b', [], rfl, by decide, by decide⟩, ";".toList, [], rfl, rfl, rfl⟩
 
 end Nic.Props.C07
